@@ -395,7 +395,7 @@ def _m():
 class DbusOrderStruct:
     """A struct given as an object that declares its field order."""
 
-    def __init__(self, fields, sig=None):
+    def __init__(self, fields=(), sig=None):
         self.dbusOrder = ['f%d' % i for i in range(len(fields))]
         for a, f in zip(self.dbusOrder, fields):
             setattr(self, a, f)
